@@ -84,6 +84,17 @@ theorem receiver_blocked_rejected (env : Env) (O : Oracle σ) (w : World σ) (op
     rw [← hp'.2, hb] at g3; cases g3
   exact ⟨hno, exec_eq_of_not_ok hno⟩
 
+/-- **module_receiver_rejected.**  With every module account on the bank's blocked list (what the
+driver checks of the application's wiring on every environment line), a conversion to any module
+account is rejected without effect. -/
+theorem module_receiver_rejected (env : Env) (O : Oracle σ) (w : World σ) (op : Op) (hc : IsConv op)
+    (hm : env.macc.all (fun a => env.blocked.contains a) = true)
+    {snd rcv : Addr} (hp : convParties op = some (snd, rcv)) (hb : env.macc.contains rcv = true) :
+    (∀ w' r, step env O w op ≠ .ok (w', r)) ∧ exec env O w op = w := by
+  refine receiver_blocked_rejected env O w op hc hp ?_
+  rw [List.all_eq_true] at hm
+  exact hm rcv (by simpa using hb)
+
 /-- **third_party_send_disabled_rejected.**  A conversion that targets somebody else while bank
 sends of the pair's coin are disabled is rejected without effect. -/
 theorem third_party_send_disabled_rejected (env : Env) (O : Oracle σ) (w : World σ) (op : Op) (hc : IsConv op)
@@ -267,6 +278,14 @@ theorem ordinary_transfers_unaffected (env : Env) (cfg : Token.Cfg) (w : World T
     · rfl
     · rw [hookLogs_no_target logs _ (fun l hl => hookTarget_not_to_module (hlogs l hl))]
       rfl
+
+/-- **switches_stored.**  An accepted parameter update stores exactly the requested switches. -/
+theorem switches_stored (env : Env) (O : Oracle σ) (w w' : World σ) (auth : Bool) (p : Params) (r : Resp)
+    (h : step env O w (.updateParams auth p) = .ok (w', r)) : w'.st.params = p := by
+  simp only [step, updateParams] at h
+  obtain ⟨_, _, h⟩ := bind_ok h
+  injection h with h; simp only [Prod.mk.injEq] at h
+  rw [← h.1]
 
 /-! ## the executable monitors hold on the model's transitions -/
 
